@@ -16,6 +16,8 @@ func checkC05(c *Ctx) {
 	r.Rule("R05.2", "string-like values are quoted: in logfmt mode (mode bits pruned, testing/debug dump excluded) no site copies message, value, error text, fallback formatting or the logger name into the record verbatim; only keys (legal-key domain), strconv/time output and user marshaller output are written raw")
 	r.Rule("R05.8", "value fidelity (necessary for 'parses back to its exact value'): as R04.8, in logfmt mode")
 	r.Rule("R05.9", "every attribute under its own key: the de-duplication of a member list merges two attributes only when their Key() strings are equal (its equality function returns nothing but a.Key() == b.Key(), identity of the two values, or a constant)")
+	r.Rule("R08.1", "(shared with C08) what a record says was logged by this call: nothing on the print path writes memory that outlives the call other than the pooled objects of this call")
+	r.Rule("R08.2", "(shared with C08) attribute lists that are sorted/compacted in place or appended to belong to this call, never to a logger, handler, group or caller")
 	r.Rule("R05.3", "the quoting routine is strconv.Unquote-compatible: in non-JSON mode appendQuotedString produces its output only through appendQuotedWith with the double quote; appendQuotedWith appends nothing but the quote byte, \\xHH of an invalid byte and the result of appendEscapedRune; appendEscapedRune copies a rune verbatim only under an IsPrint/graphic test and otherwise emits only escapes strconv.Unquote accepts")
 	r.Rule("R05.4", "one line in production: with the testing/debug flags off, the only constant containing a line break that logfmt mode can emit is the one End(true) writes")
 	r.Rule("R05.5", "dotted group keys: members of a group are printed under DotPrefix(member key, enclosing prefix), the prefix is set to the group's key while its value is rendered and restored afterwards (R09.1's save/restore invariant, shared)")
@@ -39,6 +41,7 @@ func checkC05(c *Ctx) {
 		c05Quoting(c, p, m, mr)
 		valueFidelity(c, p, m, mr, "R05.8")
 		dedupeEquality(c, p, m, "R05.9")
+		c08Stores(c, p, m)
 		newlineRule(c, p, mr, "R05.4", map[string]string{"PrintCtx.End": "the record terminator of End(true)", "PrintCtx.EndArray": "EndArray(newline) for user marshallers", "Entry.printImpl": "blank-line shortcut"})
 		fieldOrder(c, p, m, mode, "R05.6", []string{"Begin", "printTimestamp", "printLoggerName", "printSeverity", "printMsg", "serializeAttrs", "printPC", "printRestLinesOfMsg", "End", "Bytes", "printOut"}, map[string]bool{"printPC": true, "printRestLinesOfMsg": true})
 		c09Pooled(c, p, m, "R05.7", []Mode{mode})
